@@ -27,6 +27,9 @@ def run(ctx):
     malsec.shuffle_order(ctx, facts, "ORDER-shuffle")
     malsec.hash_guards(ctx, facts, "GUARD-hash")
     malsec.shuffle_verify_path(ctx, facts, "PATH-verify")
+    from rules import shufalg
+    shufalg.algebra(ctx, facts, "ALGEBRA")
+    shufalg.edges(ctx, facts, "TRANSFER")
     fields(ctx, facts)
     tag_consts(ctx, facts)
     key_cover(ctx, facts)
